@@ -1,6 +1,6 @@
 SPECIFICATION Spec
 CONSTANTS Kinds = {"rm", "rcm"} MaxR = 3 MaxC = 2 MaxLate = 1 MaxClose = 2 GraceTicks = 2 MaxT = 3
-  RClasses = {"nil", "err", "canceled"} CClasses = {"nil", "err", "kcanceled"}
-  AtomicAddCloser = TRUE Defect = "none"
+  RClasses = {"nil", "err", "canceled"} CClasses = {"nil", "err"}
+  AtomicAddCloser = TRUE Monitor = TRUE Defect = "none"
 INVARIANTS NotBad ClosersAfterRunners StoppedLast
 CHECK_DEADLOCK FALSE
